@@ -46,6 +46,9 @@ def cases_(draw):
                         row[f['name']] = 'é日' + row[f['name']]
     c = {'pkg': pkg, 'format': fmt, 'pretty': draw(st.sampled_from([None, False])),
          'filehash': draw(st.integers(0, 4)) == 0}
+    if len(pkg) >= 2 and draw(st.integers(0, 3)) == 0:
+        # a later step of the same flow drops one of the dumped resources
+        c['then_delete'] = draw(st.integers(0, len(pkg) - 1))
     if draw(st.integers(0, 5)) == 0:
         o = {}
         gen_dump.per_resource_formats(draw, pkg, o)     # force_format=False: the format each path names
@@ -102,7 +105,10 @@ def check(case, ctx):
             if case['filehash']:
                 kw['add_filehash_to_path'] = True
             with quiet():
-                Flow(FeedStep(desc, tables), dataflows.dump_to_path(out, **kw)).process()
+                tail = []
+                if case.get('then_delete') is not None:
+                    tail = [dataflows.delete_resource([pkg[case['then_delete']]['name']])]
+                Flow(FeedStep(desc, tables), dataflows.dump_to_path(out, **kw), *tail).process()
         return fn
     out0 = os.path.join(root, 'rec')
     status, events = faults.run_child(make(out0), out0, record=True)
